@@ -113,6 +113,8 @@ func (v Val) canon() string {
 		return fmt.Sprintf("r%x", v.X)
 	case "null":
 		return "null"
+	case "link":
+		return fmt.Sprintf("l%x", v.X)
 	case "list":
 		parts := make([]string, len(v.L))
 		for i, e := range v.L {
@@ -602,6 +604,7 @@ type DlgSpec struct {
 	UseRoot  bool       `json:"use_root,omitempty"`  // constructed with delegation.Root
 	RawCmd   string     `json:"raw_cmd,omitempty"`   // a deviating (byzantine) issuer: the sealed token's cmd is rewritten to this text and re-signed with the issuer's key; the model reads it as the command
 	ShareOpt string     `json:"share_opt,omitempty"` // the expiration option VALUE is created once under this name and reused by every delegation that names it (issuers that build their options once)
+	RawNbf   int64      `json:"raw_nbf,omitempty"`   // a deviating issuer: the sealed token's nbf is rewritten to this many seconds since 1970 and re-signed; the model reads it as a not-before that far away
 	PolFrom  string     `json:"pol_from,omitempty"`  // attenuation idiom: the policy is append(<that delegation object>.Policy(), own statements...); Pol lists all of them
 	PolSpare bool       `json:"pol_spare,omitempty"` // policy assembled with append(policy.Construct(a...), policy.Construct(b...)...): slice with spare capacity
 }
